@@ -38,20 +38,23 @@ Proof. exact (ConversationLink.rebuild_agrees agent c t p). Qed.
 
 (* ================================================================== the abstraction *)
 (* what Net/Auth.v's request record keeps of an HttpParser object; rq_body is what
-   _get_body_or_chunks() returns (Forward.wire_body, total because DEFAULT_BUFFER_SIZE > 0) *)
+   _get_body_or_chunks() returns (Forward.wire_body, total because DEFAULT_BUFFER_SIZE > 0);
+   rq_buffer is HttpParser.buffer (None -> b'') *)
 Definition areq_of (p : parser) : A.request :=
   A.mkRequest (or_empty (method p)) (host p) (port p) (path p) (or_empty (version p))
-              (F.unopt (headers p)) (F.wire_body p) (is_https_tunnel p).
+              (F.unopt (headers p)) (F.wire_body p) (is_https_tunnel p)
+              (match buffer p with Some b => b | None => [] end).
 
-Definition ccfg_of (fc : F.fcfg) : C.config := C.mkConfig (F.cf_agent fc) (F.cf_disable fc).
+(* [ff] = PluginChain's cf_final_flush (an input of shutdown() only; nothing linked here depends on it) *)
+Definition ccfg_of (ff : bool) (fc : F.fcfg) : C.config := C.mkConfig (F.cf_agent fc) (F.cf_disable fc) ff.
 
 Lemma areq_of_same_rest p q : FF.same_rest p q ->
   areq_of q = A.set_headers (areq_of p) (F.unopt (headers q)).
 Proof.
   intros (Hty & Hst & Hm & Hv & Hpa & Hh & Hpo & Hb & Hc & Ht & Hbuf).
   unfold areq_of, A.set_headers, F.wire_body.
-  cbn [A.rq_method A.rq_host A.rq_port A.rq_path A.rq_version A.rq_body A.rq_tunnel].
-  rewrite Hm, Hv, Hpa, Hh, Hpo, Hb, Hc, Ht. reflexivity.
+  cbn [A.rq_method A.rq_host A.rq_port A.rq_path A.rq_version A.rq_body A.rq_tunnel A.rq_buffer].
+  rewrite Hm, Hv, Hpa, Hh, Hpo, Hb, Hc, Ht, Hbuf. reflexivity.
 Qed.
 
 Lemma dict_del_absent {V} k (d : dict V) : dict_has k d = false -> dict_del k d = d.
@@ -164,8 +167,8 @@ Proof.
   rewrite (via_value_closed fc _ Hv). reflexivity.
 Qed.
 
-Theorem chain_scrub_is_forward fc tunnel p :
-  C.scrub (ccfg_of fc) tunnel (areq_of p) = areq_of (fwd_scrubbed fc tunnel p).
+Theorem chain_scrub_is_forward ff fc tunnel p :
+  C.scrub (ccfg_of ff fc) tunnel (areq_of p) = areq_of (fwd_scrubbed fc tunnel p).
 Proof.
   unfold C.scrub, fwd_scrubbed. cbv zeta.
   destruct tunnel.
@@ -187,9 +190,9 @@ Proof.
 Qed.
 
 (* _queue_request_for_upstream: the chain model on the abstraction = Forward on the parser *)
-Theorem chain_queue_is_forward fc tunnel p l :
+Theorem chain_queue_is_forward ff fc tunnel p l :
   F.cf_via_append fc = true -> is_request (ty p) = true ->
-  C.queue_request_for_upstream (ccfg_of fc) tunnel (areq_of p) l =
+  C.queue_request_for_upstream (ccfg_of ff fc) tunnel (areq_of p) l =
   match F.queue_request_for_upstream fc tunnel p with
   | Ok (r2, w) => (l ++ [C.QueueUpstream C.QRequest w], areq_of r2, None)
   | Err e => (l, areq_of (fwd_scrubbed fc tunnel p), Some (C.FRaise e))
@@ -267,8 +270,8 @@ Definition plugin_state0 (r : parser) : F.hstate := F.set_plugin (F.set_request 
 Definition st_of (o : F.outcome) : F.hstate := match o with F.Done _ st => st | F.Raised _ st => st end.
 
 (* the first step of a connection in the chain model: on_request_complete + what handle_data makes of a failure *)
-Definition chain_first (fc : F.fcfg) (r : parser) (ok : bool) : C.log :=
-  fst (C.run_steps (ccfg_of fc) (ps_of fc) None false [C.SFirst (areq_of r) ok] []).
+Definition chain_first (ff : bool) (fc : F.fcfg) (r : parser) (ok : bool) : C.log :=
+  fst (C.run_steps (ccfg_of ff fc) (ps_of fc) None false [C.SFirst (areq_of r) ok] []).
 
 Record first_agree (fc : F.fcfg) (l : C.log) (o : F.outcome) : Prop := {
   fa_upstream : up_bytes l = F.upstream_queue (st_of o);
@@ -319,9 +322,9 @@ Qed.
    model (C08/C09) run on the abstraction of [r] and the Forward model (C02) run on [r] queue the same
    bytes for the upstream, the same packets for the client, and agree on teardown / escaping
    exception. *)
-Theorem chain_first_request_is_forward fc r ok :
+Theorem chain_first_request_is_forward ff fc r ok :
   F.cf_via_append fc = true -> is_request (ty r) = true ->
-  first_agree fc (chain_first fc r ok) (FF.catch (F.on_request_complete fc ok (plugin_state0 r))).
+  first_agree fc (chain_first ff fc r ok) (FF.catch (F.on_request_complete fc ok (plugin_state0 r))).
 Proof.
   intros Hv Hty.
   unfold chain_first. cbn [C.run_steps]. unfold C.on_request_complete, F.on_request_complete.
@@ -378,7 +381,7 @@ Proof.
   destruct ok; cbn [negb].
   2:{ destruct (pkt_nonempty_bad_gateway (F.cf_agent fc)) as (x & t & Hx).
       cbn [fst C.escapes C.run_steps FF.catch F.EXC_CONNECT F.exc_response N.eqb Pos.eqb]. unfold C.handle_data_end.
-      change (C.cf_agent (ccfg_of fc)) with (F.cf_agent fc). rewrite Hx. cbn [fst].
+      change (C.cf_agent (ccfg_of ff fc)) with (F.cf_agent fc). rewrite Hx. cbn [fst].
       apply first_agree_quiet; [apply quiet_connect; exact Q2|]. split; cbn [st_of]; try reflexivity.
       cbn [cl_bytes F.queue_client F.h_client plugin_state0 F.set_plugin F.set_request F.init_state map pk app].
       rewrite <- Hx. destruct (LB.auth_canned_packets_shared (F.cf_agent fc)) as (_ & E & _). rewrite E. reflexivity. }
@@ -396,7 +399,7 @@ Proof.
   - cbn [fst FF.catch]. apply first_agree_quiet; [exact Q3|]. split; cbn [st_of]; try reflexivity.
     all: cbn [cl_bytes F.queue_client F.h_client plugin_state0 F.set_plugin F.set_upstream F.set_request F.init_state map pk app];
       destruct (LB.auth_canned_packets_shared (F.cf_agent fc)) as (_ & _ & E); rewrite E; reflexivity.
-  - rewrite (chain_queue_is_forward fc false r l3 Hv Hty).
+  - rewrite (chain_queue_is_forward ff fc false r l3 Hv Hty).
     destruct (F.queue_request_for_upstream fc false r) as [[r2 w]|e] eqn:Hq.
     + cbn [fst FF.catch]. apply first_agree_quiet; [exact Q3|]. split; reflexivity.
     + (* only build() can fail: AssertionError escapes in both models *)
@@ -425,9 +428,9 @@ Definition r_port65536 : parser :=
 
 Example chain_first_request_port_regression :
   port r_port65536 = Some 65536%Z /\
-  connects (chain_first fc0 r_port65536 true) = [] /\
-  up_bytes (chain_first fc0 r_port65536 true) = [] /\
-  ends_torn (chain_first fc0 r_port65536 true) = true /\
+  connects (chain_first false fc0 r_port65536 true) = [] /\
+  up_bytes (chain_first false fc0 r_port65536 true) = [] /\
+  ends_torn (chain_first false fc0 r_port65536 true) = true /\
   (exists st, FF.catch (F.on_request_complete fc0 true (plugin_state0 r_port65536)) = F.Done true st /\
               F.upstream_queue st = [] /\ F.h_client st = []).
 Proof.
@@ -442,9 +445,9 @@ Definition r_ok : parser :=
   | Ok p => p | Err _ => new_parser REQUEST_PARSER end.
 Example chain_first_request_example :
   is_request (ty r_ok) = true /\ port r_ok = Some 8080%Z /\
-  up_bytes (chain_first fc0 r_ok true) =
+  up_bytes (chain_first false fc0 r_ok true) =
     [bs "GET /x HTTP/1.1" ++ CRLF ++ bs "Via: 1.1 proxy.py v2.4" ++ CRLF ++ CRLF] /\
-  connects (chain_first fc0 r_ok true) = [(bs "h", 8080)].
+  connects (chain_first false fc0 r_ok true) = [(bs "h", 8080)].
 Proof. repeat split; vm_compute; reflexivity. Qed.
 
 (* ================================================================== later requests of the connection *)
@@ -457,22 +460,32 @@ Proof.
   - destruct (version p) as [v|]; [reflexivity|]. reflexivity.
 Qed.
 
+(* the parser's .buffer through the abstraction *)
+Lemma areq_of_clear_buffer q : A.set_buffer (areq_of q) [] = areq_of (F.clear_buffer q).
+Proof. reflexivity. Qed.
+Lemma areq_of_remainder q :
+  A.nonempty (Some (A.rq_buffer (areq_of q))) = match buffer q with Some (x :: t) => Some (x :: t) | _ => None end.
+Proof. unfold areq_of. cbn [A.rq_buffer]. destruct (buffer q) as [[|x t]|]; reflexivity. Qed.
+
 (* HttpProxyPlugin._on_client_data on a pipelined request that has just become complete
-   (PluginChain.run_later: the handle_client_request chain, then _queue_request_for_upstream);
-   [buf] = the parser's .buffer (bytes that followed the request), returned as the remainder *)
-Theorem chain_later_request_is_forward fc (st : C.pstate) q (buf : bytes) (l : C.log) :
+   (PluginChain.run_later: the handle_client_request chain, then _queue_request_for_upstream).  The bytes that
+   followed the request travel in the request object's buffer: the remainder handed back is Forward's
+   `buffer q''` and the retained upgrade request is Forward's `clear_buffer q''` (Forward.after_pipelined).
+   (With USER plugins whose handle_client_request returns a NEW parser object that remainder is lost — a finding of
+   agent-Plugins, witness in corpus/C09; outside this link, whose plugin list is [AuthPlugin] or [].) *)
+Theorem chain_later_request_is_forward ff fc (st : C.pstate) q (l : C.log) :
   F.cf_via_append fc = true -> is_request (ty q) = true ->
-  C.run_later (ccfg_of fc) (ps_of fc) st (areq_of q) buf l =
+  C.run_later (ccfg_of ff fc) (ps_of fc) st (areq_of q) l =
   let l1 := l ++ map (fun p => C.Call (C.pid p) C.HCR (C.ARequest (areq_of q))) (ps_of fc) in
   match F.queue_request_for_upstream fc (A.rq_tunnel (C.st_request st)) q with
   | Ok (q2, w) =>
       (l1 ++ [C.QueueUpstream C.QRequest w],
        C.Continue (C.mkState (C.st_request st) true
-                     (if F.is_connection_upgrade q2 then Some (areq_of q2, []) else None)),
-       A.nonempty (Some buf))
+                     (if F.is_connection_upgrade q2 then Some (areq_of (F.clear_buffer q2)) else None)),
+       match buffer q2 with Some (x :: t) => Some (x :: t) | _ => None end)
   | Err e =>
       (l1, C.Failed (C.mkState (C.st_request st) true
-                       (Some (areq_of (fwd_scrubbed fc (A.rq_tunnel (C.st_request st)) q), buf))) (C.FRaise e),
+                       (Some (areq_of (fwd_scrubbed fc (A.rq_tunnel (C.st_request st)) q)))) (C.FRaise e),
        None)
   end.
 Proof.
@@ -483,8 +496,8 @@ Proof.
     - reflexivity.
     - rewrite app_nil_r. reflexivity. }
   rewrite Hc. cbn [C.norm_end].
-  rewrite (chain_queue_is_forward fc _ q _ Hv Hty).
+  rewrite (chain_queue_is_forward ff fc _ q _ Hv Hty).
   destruct (F.queue_request_for_upstream fc (A.rq_tunnel (C.st_request st)) q) as [[q2 w]|e].
-  - rewrite chain_is_connection_upgrade. reflexivity.
+  - rewrite chain_is_connection_upgrade, areq_of_clear_buffer, areq_of_remainder. reflexivity.
   - reflexivity.
 Qed.
